@@ -15,6 +15,8 @@ pub const CLASSES: &[&str] = &[
     "\\D", "[[:alpha:]]", "\\pL", "[^\\s]", "[a-cA-C0-9_]", "\\p{Greek}",
     "[é-ë]", "[^\\w]", "[^ab]", "[a-z&&[^b]]", "[\\w-]", "[ \\t]", "[0-9a-f]",
     "\\p{Lu}", "[^\\x00-\\x7f]", "(?-u:[\\x80-\\xff])", "(?-u:\\W)", "[b-b]",
+    // small byte classes with members >= 0x80 (Latin-1 text searched as bytes)
+    "(?-u:[\\xE9\\xC9])", "(?-u:[a\\xFF])", "(?-u:[\\x80\\xBF\\xC3])",
 ];
 
 pub const LOOKS: &[&str] = &[
